@@ -56,6 +56,21 @@ def run(ctx):
             fwd = any(call_matches(t, ['core::slice::<impl [T]>::iter']) for t in its)
             ctx.ob('5c forward-iteration %s' % fn, 'K9-agreement', fn, 'iterates self.changes with slice::iter in a for loop', bool(lp) and fwd, 'loops %d' % len(lp))
     # 6. one hashing scheme
+    # keys may be ANY byte string the column type admits (32 bytes OR LONGER for uniform keys): the hashing function never copies a
+    # run-time-sized part of the key into a fixed-size destination (copy_from_slice panics unless both lengths are equal)
+    hkb = ctx.body('column::hash_key')
+    if hkb:
+        cps = [bi for bi, t in hkb.calls() if bi in hkb.normal_blocks() and call_matches(t, ['re:slice::<impl \\[T\\]>::copy_from_slice$', 're:::copy_from_slice$'])]
+        ctx.ob('6k0 key-copy-sites', 'anchor', hkb.path, 'hash_key copies key / hash bytes into the 32-byte key', len(cps) >= 2, str(cps))
+        bad = []
+        for bi in cps:
+            t = hkb.term(bi)
+            dl, sl_ = lib.static_len(hkb, t['a'][0]), lib.static_len(hkb, t['a'][1])
+            if dl is None or dl != sl_:
+                bad.append('%s: destination %s bytes, source %s bytes' % (hkb.loc(bi), dl, sl_))
+        ctx.ob('6k key-bytes-copied-with-fixed-lengths', 'K7-panic-audit', hkb.path,
+               'both sides of every copy_from_slice in hash_key have the same length by construction (constant sub-ranges / fixed-size arrays), whatever the length of the key',
+               not bad, '; '.join(bad) + ' (None = depends on the key length)' if bad else '%d copies' % len(cps))
     lib.callers_confined(ctx, '6a key-hashers-confined', F, ['re:^blake2::', 're:Blake2bMac', 're:siphasher::sip128::', 're:SipHasher13'],
                          {'column::hash_key'}, 'only column::hash_key touches the key-hash primitives (Blake2bMac / SipHasher13-128); the ref-count table hashes addresses, not keys',
                          required=['column::hash_key'])
